@@ -578,7 +578,12 @@ class SFTPFile(BufferedFile):
 
     def _start_prefetch(self, chunks, max_concurrent_requests=None):
         self._prefetching = True
-        self._prefetch_done = False
+        with self._prefetch_lock:
+            # with nothing to request and nothing outstanding no response
+            # will ever arrive to mark the prefetch as done
+            self._prefetch_done = (
+                len(chunks) == 0 and len(self._prefetch_extents) == 0
+            )
 
         t = threading.Thread(
             target=self._prefetch_thread,
@@ -612,10 +617,24 @@ class SFTPFile(BufferedFile):
             is_write = num in self._reqs
             try:
                 self.sftp._convert_status(msg)
+            except EOFError as e:
+                # nothing to prefetch at that offset; a reader that gets
+                # there will find out with a request of its own
+                if is_write:
+                    self._saved_exception = e
             except Exception as e:
                 self._saved_exception = e
             if is_write:
                 return
+            # the read request has been answered: forget its extent
+            while True:
+                with self._prefetch_lock:
+                    # spin if in race with _prefetch_thread
+                    if num in self._prefetch_extents:
+                        del self._prefetch_extents[num]
+                        if len(self._prefetch_extents) == 0:
+                            self._prefetch_done = True
+                        break
             return
         if t != CMD_DATA:
             raise SFTPError("Expected data")
